@@ -674,6 +674,10 @@ func (st *bufState) start() {
 				} else {
 					it.wire, w = mutateV4(it.wire, t)
 				}
+				if len(it.wire) > 8000 {
+					w = "" // would not fit the relay's 8 KiB pool buffers whole: keep the corpus item as it is
+					it = corpus(t)
+				}
 				if w != "" {
 					it.name += " " + w
 					if st.mutated == nil {
